@@ -78,6 +78,19 @@ Proof. vm_compute. repeat split; reflexivity. Qed.
 Print Assumptions C27_coroutine_refines_partial.
 Print Assumptions C27_after_queue_coroutine_partial.
 
+(* --- undeploy exactness is about the RECORDED jobs only: a job whose sbatch has run but whose id is not yet in
+   _scheduled_jobs when undeploy() takes its snapshot is not cancelled and stays queued (accepted trace; replayed on
+   the real code with a two-phase fake sbatch: known finding undeploy-exact/unrecorded-at-undeploy).
+   C27_undeploy_partial above only says that the cancelled ids are the snapshot. *)
+Theorem C27_unrecorded_job_survives_undeploy_refuted :
+  exists tr s, accept q0 tr = Some s /\ In UndeployEnd tr /\ queue s = [1] /\ sched s = [1].
+Proof.
+  exists [Submit 1; UndeployStart; UndeployEnd; Record 1]. eexists. split; [vm_compute; reflexivity|].
+  simpl. repeat split; auto.
+Qed.
+
+Print Assumptions C27_unrecorded_job_survives_undeploy_refuted.
+
 Print Assumptions C27_after_queue_partial.
 Print Assumptions C27_finished_not_queued_partial.
 Print Assumptions C27_listings_complete_partial.
